@@ -34,7 +34,7 @@ use palette::matrix::{multiply_3x3_and_vec3, rgb_to_xyz_matrix};
 use palette::rgb::{Primaries, Rgb, RgbSpace, RgbStandard};
 use palette::white_point::{self as wp, Any, WhitePoint};
 use palette::xyz::meta::HasXyzMeta;
-use palette::{Hsl, Hsluv, Hsv, Hwb, Lab, Lch, Lchuv, Luv, Oklab, Oklch, Xyz};
+use palette::{Hsl, Hsluv, Hsv, Hwb, Lab, Lch, Lchuv, Luv, Oklab, Oklch, Xyz, Yxy};
 use pvh::*;
 use serde_json::{json, Map, Value};
 
@@ -238,6 +238,24 @@ macro_rules! standard {
                     back.push(rgb3!(S, hsl)); bn.push("hsl");
                     back.push(rgb3!(S, hwb)); bn.push("hwb");
                     back.push(rgb3!(S, luma)); bn.push("luma");
+                    // the grey as single-channel luma into xyY (takes the chromaticity of the white from the type) and on
+                    let yxy_l = Yxy::<W, T>::from_color_unclamped(luma);
+                    let yxy = Yxy::<W, T>::from_color_unclamped(rgb);
+                    back.push(rgb3!(S, yxy_l)); bn.push("luma>yxy");
+                    back.push(rgb3!(S, yxy)); bn.push("yxy");
+                    { let x = Xyz::<W, T>::from_color_unclamped(yxy_l); back.push(rgb3!(S, Lab::<W, T>::from_color_unclamped(x))); bn.push("luma>yxy>xyz>lab"); }
+                    // a grey that arrives in RGB through another space is equal only up to rounding; on through the hexcone forms
+                    macro_rules! via_hex { ($c:expr, $n1:expr, $n2:expr, $n3:expr) => {{
+                        let r0 = Rgb::<S, T>::from_color_unclamped($c);
+                        back.push(rgb3!(S, Hsl::<S, T>::from_color_unclamped(r0))); bn.push($n1);
+                        back.push(rgb3!(S, Hsv::<S, T>::from_color_unclamped(r0))); bn.push($n2);
+                        back.push(rgb3!(S, Hwb::<S, T>::from_color_unclamped(r0))); bn.push($n3);
+                    }}; }
+                    via_hex!(luv, "luv>rgb>hsl", "luv>rgb>hsv", "luv>rgb>hwb");
+                    via_hex!(lab, "lab>rgb>hsl", "lab>rgb>hsv", "lab>rgb>hwb");
+                    via_hex!(lchuv, "lchuv>rgb>hsl", "lchuv>rgb>hsv", "lchuv>rgb>hwb");
+                    via_hex!(yxy, "yxy>rgb>hsl", "yxy>rgb>hsv", "yxy>rgb>hwb");
+                    via_hex!(xyz, "xyz>rgb>hsl", "xyz>rgb>hsv", "xyz>rgb>hwb");
                     ok_part!($ok, S, rgb, out, back, bn);
                     // CAM16 lightness of the white when it is the adopted white, under several viewing conditions
                     let mut camj: Vec<Value> = Vec::new();
@@ -394,12 +412,12 @@ macro_rules! driver {
             // small kernels below are generic; recording is shared.
             #[derive(Default)]
             pub struct Raw {
-                mat: Vec<T>, matd: Vec<T>, old: Vec<T>, wdst: Vec<T>,
+                mat: Vec<T>, matd: Vec<T>, matds: Vec<T>, old: Vec<T>, wdst: Vec<T>,
                 pts: Vec<[T; 3]>, fwd: Vec<[T; 3]>, forms: Vec<Vec<[T; 3]>>, fnames: Vec<&'static str>,
                 back: Vec<[T; 3]>, backf: Vec<[T; 3]>, backo: Vec<[T; 3]>,
             }
             fn arr<W>(c: Xyz<W, T>) -> [T; 3] { [c.x, c.y, c.z] }
-            const ADAPT_FIELDS: [&str; 11] = ["mat", "matd", "old", "wdst", "pts", "fwd", "forms", "fnames", "back", "backf", "backo"];
+            const ADAPT_FIELDS: [&str; 12] = ["mat", "matd", "matds", "old", "wdst", "pts", "fwd", "forms", "fnames", "back", "backf", "backo"];
             fn rows(v: &[[T; 3]]) -> Value { Value::Array(v.iter().map(|p| ex_arr(p)).collect()) }
 
             /// white points that are their own XYZ meta type: adaptation_matrix, the *Unclamped traits and the deprecated API
@@ -410,10 +428,13 @@ macro_rules! driver {
                 let fm = adaptation_matrix::<T, I, O, M>(None, None);
                 let bm = adaptation_matrix::<T, O, I, M>(None, None);
                 let dm = adaptation_matrix::<T, I, O, M>(Some(wi), Some(wo));
+                // the same white points given at other luminances (Y = 0.75 and Y = 0.5): "the white points are normalized"
+                let dms = adaptation_matrix::<T, I, O, M>(Some(wi * t(0.75)), Some(wo * t(0.5)));
                 let old = M::old().generate_transform_matrix(<I as WhitePoint<T>>::get_xyz(), <O as WhitePoint<T>>::get_xyz());
                 let oldb = M::old().generate_transform_matrix(<O as WhitePoint<T>>::get_xyz(), <I as WhitePoint<T>>::get_xyz());
                 r.mat = fm.into_array().to_vec();
                 r.matd = dm.into_array().to_vec();
+                r.matds = dms.into_array().to_vec();
                 r.old = old.to_vec();
                 r.wdst = arr::<O>(fm.convert(wi)).to_vec();
                 let brad = M::NAME == "bradford";   // the default method of every trait is Bradford
@@ -481,7 +502,7 @@ macro_rules! driver {
                 let res = catch(|| { let mut r = Raw::default(); kernel(&pts, &mut r); r });
                 rec.ev(match res {
                     Ok(r) => put(b, vec![
-                        ("mat", ex_arr(&r.mat)), ("matd", ex_arr(&r.matd)), ("old", ex_arr(&r.old)), ("wdst", ex_arr(&r.wdst)),
+                        ("mat", ex_arr(&r.mat)), ("matd", ex_arr(&r.matd)), ("matds", ex_arr(&r.matds)), ("old", ex_arr(&r.old)), ("wdst", ex_arr(&r.wdst)),
                         ("pts", rows(&r.pts)), ("fwd", rows(&r.fwd)), ("forms", Value::Array(r.forms.iter().map(|f| rows(f)).collect())),
                         ("fnames", json!(r.fnames)), ("back", rows(&r.back)), ("backf", rows(&r.backf)), ("backo", rows(&r.backo)),
                     ]),
